@@ -125,7 +125,7 @@ func (self Path) ToRaw(t proto.Type) []byte {
 	case PathStrKey:
 		// tag + string key
 		ret := make([]byte, 0, DefaultTagSliceCap)
-		tag := uint64(1)<<3 | uint64(proto.STRING)
+		tag := uint64(1)<<3 | uint64(proto.BytesType)
 		ret = protowire.BinaryEncoder{}.EncodeUint64(ret, tag)
 		ret = protowire.BinaryEncoder{}.EncodeString(ret, self.str())
 		return ret
